@@ -1,6 +1,6 @@
 #!/bin/bash
 # usage: tools/try_mutant.sh <patch.diff> <PROP> [tier]  -- applies the patch to /repo, runs the check, reverts.
-PATCH="$1"; PROP="$2"; TIER="${3:-quick}"
+PATCH="$(realpath "$1")"; PROP="$2"; TIER="${3:-quick}"
 cd /verif || exit 2
 if ! git -C /repo diff --quiet; then echo "/repo has uncommitted changes"; exit 2; fi
 git -C /repo apply "$PATCH" || { echo "patch does not apply"; exit 2; }
